@@ -20,9 +20,13 @@ PRIME = {
         "arch": "x86_64", "bootable": False, "checksums": {"md5": "0" * 32}, "disc_count": 1, "disc_number": 1,
         "format": "iso", "implant_md5": None, "mtime": 1, "path": "Zzz/zzz.iso", "size": 1, "subvariant": "Zzz",
         "type": "boot", "volume_id": None}]}}}),
-    "rpms": _j("rpms", {"rpms": {}}),
-    "modules": _j("modules", {"modules": {}}),
-    "extra_files": _j("extra_files", {"extra_files": {}}),
+    "rpms": _j("rpms", {"rpms": {"Zzz": {"x86_64": {"zzz-0:1-1.src": {"zzz-0:1-1.x86_64": {
+        "category": "binary", "path": "Zzz/x86_64/os/Packages/z/zzz-1-1.x86_64.rpm", "sigkey": None}}}}}}),
+    "modules": _j("modules", {"modules": {"Zzz": {"x86_64": {"zzz:1:20200101:c0ffee": {
+        "metadata": {"uid": "zzz:1:20200101:c0ffee", "name": "zzz", "stream": "1", "version": "20200101", "context": "c0ffee", "koji_tag": "module-zzz"},
+        "modulemd_path": {"binary": "Zzz/x86_64/os/repodata/zzz-modules.yaml.gz"}, "rpms": ["zzz-0:1-1.x86_64"]}}}}}),
+    "extra_files": _j("extra_files", {"extra_files": {"Zzz": {"x86_64": [
+        {"file": "Zzz/x86_64/os/ZZZ", "size": 1, "checksums": {"md5": "0" * 32}}]}}}),
     "treeinfo": ("[header]\ntype = productmd.treeinfo\nversion = 1.2\n\n[release]\nname = Zz\nshort = Zz\nversion = 1\n\n"
                  "[tree]\narch = x86_64\nbuild_timestamp = 5\nplatforms = x86_64\nvariants = Zzz\n\n"
                  "[variant-Zzz]\nid = Zzz\nname = Zzz\ntype = variant\nuid = Zzz\n\n"
